@@ -32,6 +32,15 @@ with context = "in a block reachable from its region's entry" for ops of the reg
 "parent op is live" for nested ops.  Terminator operands (successor operands) are ordinary uses:
 region_dce never touches block arguments, so a value that only feeds a dead block-argument cycle
 counts as live and nothing is asserted about it.
+
+Assertions: (1) every op an entry point removes is reference-dead [C13|<entry>|removed-live-op|<class>];
+(2) after the dce PASS no reference-dead op of a reachable block remains
+[C13|dce-pass|left-dead-op|<class>|unused or ...|used-only-inside-removed-region: the op's (transitive) users sat in
+the region of an op the pass removed] and exactly the reachable blocks remain [C13|dce-pass|left-unreachable-block];
+for the recursive trivially-dead sweeps (greedy, dce()) no removable op without uses remains at their fixpoint
+[C13|<entry>|left-trivially-dead|<class>]; (3) surviving effectful ops keep order and block
+[C13|<entry>|effect-order-changed]; (4) the result verifies and mc.irinv is clean (checked whenever the entry point
+removed or created something).  <class> is the ground-truth class ("rec-effectful" = scf.if holding a non-removable op).
 """
 from __future__ import annotations
 
@@ -418,7 +427,6 @@ def build(desc: tuple) -> Prog:
 
     blocks = [Block(arg_types=[i1] * na) for (na, _ops) in blks]
     p.blocks = blocks
-    placeholder = None   # scf.if needs a condition at construction; rewired below
     for b, (na, ops) in zip(blocks, blks):
         p.values.extend(b.args)
         for (k, operands, succs, inner) in ops:
@@ -437,22 +445,21 @@ def build(desc: tuple) -> Prog:
                 ib.add_op(iop)
                 made.append((iop, tuple(ioperands)))
             if k == "PR":
-                term = TestTermOp()
+                term = TestTermOp.create()
                 ib.add_op(term)
-                op = TestPureOp(result_types=[i1], regions=[Region(ib)])
+                op = TestPureOp.create(result_types=[i1], regions=[Region(ib)])
                 extra = [(term, ())]
             else:
-                if placeholder is None:
-                    placeholder = TestPureOp.create(result_types=[i1]).results[0]
-                term = scf.YieldOp()
+                # the condition (and every other operand) is wired in the second pass
+                term = scf.YieldOp.create()
                 ib.add_op(term)
                 extra = [(term, tuple(y))]
                 if k == "IF1":
-                    eterm = scf.YieldOp()
-                    op = scf.IfOp(placeholder, [i1], Region(ib), Region(Block([eterm])))
+                    eterm = scf.YieldOp.create()
+                    op = scf.IfOp.create(result_types=[i1], regions=[Region(ib), Region(Block([eterm]))])
                     extra.append((eterm, tuple(operands)))
                 else:
-                    op = scf.IfOp(placeholder, [], Region(ib), Region())
+                    op = scf.IfOp.create(regions=[Region(ib), Region()])
             p.ops.append(op)
             p.values.extend(op.results)
             b.add_op(op)
@@ -676,12 +683,16 @@ def spaces(quick: bool) -> list[dict]:
              entry_args=(0,), other_args=(0, 1), terms=TERMS),
     ]
     if not quick:
+        # the larger spaces skip the two entry points that add least: greedy-once is the first sweep of greedy, region_dce is
+        # what the pass calls (both still run on every program of the spaces above)
+        big = ("dce-pass", "dce-fn", "greedy", "canonicalize")
         out += [
             dict(name="effects-cfg-5", container="cfg", leaf=eff9, inner_leaf=inner, max_inner=2, max_blocks=1, max_ops=5,
-                 entry_args=(1,), other_args=(0,), terms=("T0", "T1"), exclude=(eff, 4, 2)),
-            dict(name="effects-graph-4", container="graph", leaf=eff9, inner_leaf=inner, max_inner=2, max_ops=4, exclude=(eff, 3, 2)),
-            dict(name="cfg-5", container="cfg", leaf=cfg, inner_leaf=(), max_inner=0, max_blocks=3, max_ops=5,
-                 entry_args=(0,), other_args=(0, 1), terms=TERMS, ordered_succ=False, exclude=(cfg, 4, 0)),
+                 entry_args=(1,), other_args=(0,), terms=("T0", "T1"), exclude=(eff, 4, 2), entries=big),
+            dict(name="effects-graph-4", container="graph", leaf=eff9, inner_leaf=inner, max_inner=2, max_ops=4, exclude=(eff, 3, 2),
+                 entries=big),
+            dict(name="cfg-5", container="cfg", leaf=("D", "P", "W"), inner_leaf=(), max_inner=0, max_blocks=3, max_ops=5,
+                 entry_args=(0,), other_args=(0, 1), terms=TERMS, ordered_succ=False, exclude=(cfg, 4, 0), entries=big),
         ]
     return out
 
